@@ -17,36 +17,71 @@ func c09(c *core.Ctx, r *core.Report) {
 		"The bound 1+floor(e/interval) itself rests on time.Ticker's semantics and is not decided."
 	r.NotDecided = []string{"the elapsed-time bound itself (time.Ticker semantics, scheduling delay)"}
 
-	// the ticking closure: function of internal/trigger/api with a dynamic call of a RateFunction and a NewTicker
+	// the ticking function, by role: the minimal function of internal/trigger/api that (through helpers) both
+	// evaluates a RateFunction value and creates a ticker — a function literal today
+	isEval := func(call ssa.CallInstruction, t *ssa.Function) bool {
+		if t != nil {
+			return false
+		}
+		n := an.DynCallType(call)
+		return n != nil && an.IsNamed(n, apiPkg, "RateFunction")
+	}
+	isNewTicker := func(_ ssa.CallInstruction, t *ssa.Function) bool { return an.IsFunc(t, "time", "NewTicker") }
 	var tick *ssa.Function
-	var evals []ssa.CallInstruction
-	var newTicker *ssa.Call
+	var evals []an.Event
+	var newTickerEv *an.Event
+	type tcand struct {
+		fn  *ssa.Function
+		ev  []an.Event
+		nts []an.Event
+	}
+	var tcands []tcand
 	for _, fn := range c.AllFuncs {
 		if core.RelPkg(fn) != "internal/trigger/api" {
 			continue
 		}
-		var ev []ssa.CallInstruction
-		var nt *ssa.Call
-		for _, call := range an.AllCalls(fn) {
-			if n := an.DynCallType(call); n != nil && an.IsNamed(n, apiPkg, "RateFunction") {
-				ev = append(ev, call)
-			}
-			if an.IsFunc(an.Callee(call), "time", "NewTicker") {
-				nt, _ = call.(*ssa.Call)
+		ev := an.FlatCalls(fn, flatDepth, isEval)
+		nts := an.FlatCalls(fn, flatDepth, isNewTicker)
+		if len(ev) > 0 && len(nts) > 0 {
+			tcands = append(tcands, tcand{fn, ev, nts})
+		}
+	}
+	for i, tc := range tcands {
+		callsOther := false
+		for j, o := range tcands {
+			if i != j && len(an.FlatCalls(tc.fn, flatDepth, func(_ ssa.CallInstruction, t *ssa.Function) bool { return t == o.fn })) > 0 {
+				callsOther = true
 			}
 		}
-		if nt != nil && len(ev) > 0 {
-			tick, evals, newTicker = fn, ev, nt
+		if !callsOther {
+			tc := tc
+			tick, evals, newTickerEv = tc.fn, tc.ev, &tc.nts[len(tc.nts)-1]
 		}
+	}
+	var newTicker *ssa.Call
+	if newTickerEv != nil {
+		newTicker, _ = newTickerEv.Instr.(*ssa.Call)
+	}
+	evInLoop := func(e an.Event) bool {
+		in := e.Instr
+		for fr := e.Frame; fr != nil; fr = fr.Parent {
+			if an.InLoop(in) {
+				return true
+			}
+			if fr.Parent != nil {
+				in = fr.Site
+			}
+		}
+		return false
 	}
 
 	rule(r, "C09.R1", "the rate function is evaluated at exactly two sites of the ticking closure: one dominating the loop, one per loop iteration dominated by the ticker receive; nowhere else on the run path", func() {
 		if tick == nil {
 			panic(core.AnchorError{What: "ticking closure (RateFunction call + time.NewTicker in internal/trigger/api)"})
 		}
-		var pre, inLoop []ssa.CallInstruction
+		var pre, inLoop []an.Event
 		for _, e := range evals {
-			if an.InLoop(e) {
+			if evInLoop(e) {
 				inLoop = append(inLoop, e)
 			} else {
 				pre = append(pre, e)
@@ -57,52 +92,57 @@ func c09(c *core.Ctx, r *core.Report) {
 		r.Check(len(inLoop) == 1, key+"#tick-eval", c.Pos(tick.Pos()), "one evaluation site inside the loop", sprintf("%d evaluation sites inside the tick loop (expected exactly one): the rate is consumed more than once per tick", len(inLoop)))
 		if len(pre) == 1 {
 			e := pre[0]
-			// executed exactly once: dominates the loop header and is not conditional
+			// executed exactly once: precedes the loop and is not conditional
 			ok := true
 			for _, l := range inLoop {
-				if !an.Dominates(e, l) {
+				if !an.Before(e, l) {
 					ok = false
 				}
 			}
-			if _, isGo := e.(*ssa.Go); isGo {
+			if _, isGo := e.Instr.(*ssa.Go); isGo {
 				ok = false
 			}
-			r.Check(ok && len(an.GuardsOf(e.Block())) == 0, key+"#first-eval-once", an.Pos(c, e), "the first evaluation runs unconditionally, once, before ticking starts", "the first evaluation is conditional or does not precede the tick loop")
+			r.Check(ok && len(an.GuardsOfEvent(e)) == 0, key+"#first-eval-once", an.Pos(c, e.Instr), "the first evaluation runs unconditionally, once, before ticking starts", "the first evaluation is conditional or does not precede the tick loop")
 		}
 		for _, e := range inLoop {
-			sel, idx := an.ArmOf(e)
+			sel, idx := an.ArmOf(e.Instr)
 			if sel == nil || idx < 0 {
-				r.Violation(key+"#tick-arm", an.Pos(c, e), "the in-loop evaluation is not under a select arm: it is not tied to a tick")
+				r.Violation(key+"#tick-arm", an.Pos(c, e.Instr), "the in-loop evaluation is not under a select arm: it is not tied to a tick")
 				continue
 			}
-			fld, owner := an.TerminalField(sel.States[idx].Chan)
-			isTicker := fld != nil && fld.Name() == "C" && an.IsNamed(owner, "time", "Ticker") && an.Strip(sel.States[idx].Chan.(ssa.Value)) != nil
-			if isTicker {
-				// the ticker must be the one created here
-				if fa, ok := an.Terminal(sel.States[idx].Chan).(*ssa.FieldAddr); !ok || an.Strip(fa.X) != ssa.Value(newTicker) {
-					isTicker = false
+			// the channel received from must be the C of the ticker created here (possibly handed to a helper)
+			chv := an.EventFV(e, sel.States[idx].Chan).Resolve(nil)
+			isTicker := false
+			if fa, ok := chv.V.(*ssa.FieldAddr); ok {
+				fld := an.FieldOfAddr(fa)
+				if fld != nil && fld.Name() == "C" && an.IsNamed(fa.X.Type(), "time", "Ticker") {
+					isTicker = (an.FV{V: fa.X, F: chv.F}).Resolve(nil).V == ssa.Value(newTicker)
 				}
 			}
 			if !isTicker {
-				r.Violation(key+"#tick-arm", an.Pos(c, e), "the in-loop evaluation is under the arm receiving from %s, not from the ticker created in this closure", an.D().Of(sel.States[idx].Chan))
+				r.Violation(key+"#tick-arm", an.Pos(c, e.Instr), "the in-loop evaluation is under the arm receiving from %s, not from the ticker created in this closure", an.D().Of(sel.States[idx].Chan))
 				continue
 			}
-			if an.OnCycleAvoiding(e, sel.Block()) {
-				r.Violation(key+"#tick-arm", an.Pos(c, e), "the evaluation sits on an inner loop: several evaluations per tick")
+			if an.OnCycleAvoiding(e.Instr, sel.Block()) {
+				r.Violation(key+"#tick-arm", an.Pos(c, e.Instr), "the evaluation sits on an inner loop: several evaluations per tick")
 				continue
 			}
-			r.OK(key+"#tick-arm", an.Pos(c, e), "evaluation dominated by the receive from the ticker (select state %d), once per receive", idx)
+			r.OK(key+"#tick-arm", an.Pos(c, e.Instr), "evaluation dominated by the receive from the ticker (select state %d), once per receive", idx)
 		}
 		// other evaluations of trigger-level rate functions on the run path (excluding wrappers that take a RateFunction
 		// and return one, the chart dry-run, and the file dry-run)
 		n := 0
+		evalHolders := map[*ssa.Function]bool{}
+		for _, e := range evals {
+			evalHolders[e.Instr.Parent()] = true
+		}
 		rateValues := map[*ssa.Function]bool{}
 		for _, f := range an.FuncsOfType(c, apiPkg, "RateFunction") {
 			rateValues[f] = true
 		}
 		for _, fn := range c.AllFuncs {
 			rel := core.RelPkg(fn)
-			if fn == tick || !strings.HasPrefix(rel, "internal/") {
+			if fn == tick || evalHolders[fn] || !strings.HasPrefix(rel, "internal/") {
 				continue
 			}
 			for _, call := range an.AllCalls(fn) {
@@ -133,26 +173,25 @@ func c09(c *core.Ctx, r *core.Report) {
 		if tick == nil {
 			panic(core.AnchorError{What: "ticking closure"})
 		}
-		var triggers []ssa.CallInstruction
-		for _, call := range an.AllCalls(tick) {
-			if isMethod(an.Callee(call), workersPkg, "TriggerPool", "Trigger") {
-				triggers = append(triggers, call)
-			}
-		}
+		triggers := an.FlatCalls(tick, flatDepth, func(_ ssa.CallInstruction, t *ssa.Function) bool {
+			return isMethod(t, workersPkg, "TriggerPool", "Trigger")
+		})
 		key := core.FuncName(tick)
 		r.Check(len(triggers) == len(evals), key+"#pairing", c.Pos(tick.Pos()), sprintf("%d evaluations, %d Trigger calls", len(evals), len(triggers)), sprintf("%d evaluations of the rate but %d Trigger calls: a value is computed and not requested, or requested twice", len(evals), len(triggers)))
 		used := map[ssa.Value]bool{}
-		for i, tcall := range triggers {
-			arg := an.Strip(tcall.Common().Args[len(tcall.Common().Args)-1])
+		for i, tev := range triggers {
+			tcall := tev.Call()
+			last := tcall.Common().Args[len(tcall.Common().Args)-1]
+			arg := an.EventFV(tev, last).Resolve(nil).V
 			k := sprintf("%s#trigger%d", key, i+1)
 			ok := false
 			for _, e := range evals {
-				if v, isV := e.(ssa.Value); isV && arg == v {
-					ok = !used[v] && an.Dominates(e, tcall) && an.InLoop(e) == an.InLoop(tcall)
+				if v, isV := e.Instr.(ssa.Value); isV && arg == v {
+					ok = !used[v] && an.Before(e, tev) && evInLoop(e) == evInLoop(tev)
 					used[v] = true
 				}
 			}
-			r.Check(ok, k, an.Pos(c, tcall), "Trigger receives the value of the evaluation just made", "Trigger is given "+an.D().Of(tcall.Common().Args[len(tcall.Common().Args)-1])+", not the unchanged result of this tick's evaluation")
+			r.Check(ok, k, an.Pos(c, tcall), "Trigger receives the value of the evaluation just made", "Trigger is given "+an.D().Of(last)+", not the unchanged result of this tick's evaluation")
 		}
 		// pass-through chain inside the pool: the request parameter reaches the atomic supersede unchanged
 		trig := c.MustFn("internal/workers", "TriggerPool.Trigger")
@@ -172,27 +211,51 @@ func c09(c *core.Ctx, r *core.Report) {
 			panic(core.AnchorError{What: "ticking closure"})
 		}
 		key := core.FuncName(tick)
-		arg := an.Strip(newTicker.Call.Args[0])
+		arg := an.EventFV(*newTickerEv, newTicker.Call.Args[0]).Resolve(nil).V
 		d := an.D().Of(arg)
-		okParam := false
-		if fv, ok := arg.(*ssa.FreeVar); ok {
-			if b := an.FreeVarBinding(fv); b != nil {
-				bv := an.Strip(b)
-				if al, isAl := bv.(*ssa.Alloc); isAl {
-					if sts := an.StoresTo(al); len(sts) == 1 {
-						bv = an.Strip(sts[0].Val)
-					}
+		// the configured interval: a parameter of the constructor, reached directly, through a captured variable or
+		// through a field that is only ever assigned such a parameter
+		isParam := func(v ssa.Value) bool {
+			v = an.Strip(v)
+			if al, isAl := v.(*ssa.Alloc); isAl {
+				if sts := an.StoresTo(al); len(sts) == 1 {
+					v = an.Strip(sts[0].Val)
 				}
-				_, okParam = bv.(*ssa.Parameter)
 			}
+			_, ok := v.(*ssa.Parameter)
+			return ok
 		}
-		if _, ok := arg.(*ssa.Parameter); ok {
+		okParam := false
+		switch x := arg.(type) {
+		case *ssa.Parameter:
 			okParam = true
+		case *ssa.FreeVar:
+			if b := an.FreeVarBinding(x); b != nil {
+				okParam = isParam(b)
+			}
+		case *ssa.FieldAddr:
+			fld := an.FieldOfAddr(x)
+			n := 0
+			okParam = true
+			for _, fn := range c.AllFuncs {
+				if !core.InModule(fn) {
+					continue
+				}
+				an.Instrs(fn, func(in ssa.Instruction) {
+					if st, ok := in.(*ssa.Store); ok && an.SameField(an.FieldOfAddr(st.Addr), fld) {
+						n++
+						if !isParam(st.Val) {
+							okParam = false
+						}
+					}
+				})
+			}
+			okParam = okParam && n > 0
 		}
 		r.Check(okParam, key+"#period", an.Pos(c, newTicker), "ticker period is the interval parameter "+d, "ticker period is "+d+", not the configured interval unchanged")
 		for _, e := range evals {
-			if !an.InLoop(e) {
-				r.Check(an.Dominates(e, newTicker), key+"#ticker-after-first-eval", an.Pos(c, newTicker), "the ticker starts after the first evaluation: tick k cannot arrive before t0 + k·interval", "the ticker is created before the first evaluation: the second evaluation comes less than one interval after the first")
+			if !evInLoop(e) {
+				r.Check(an.Before(e, *newTickerEv), key+"#ticker-after-first-eval", an.Pos(c, newTicker), "the ticker starts after the first evaluation: tick k cannot arrive before t0 + k·interval", "the ticker is created before the first evaluation: the second evaluation comes less than one interval after the first")
 			}
 		}
 		bad := 0
@@ -213,37 +276,55 @@ func c09(c *core.Ctx, r *core.Report) {
 		if tick == nil {
 			panic(core.AnchorError{What: "ticking closure"})
 		}
-		sels := an.Selects(tick)
+		var sels []an.Event
+		an.Flatten(tick, flatDepth, nil, func(e an.Event) {
+			if _, ok := e.Instr.(*ssa.Select); ok {
+				sels = append(sels, e)
+			}
+		})
 		key := core.FuncName(tick) + "#select"
 		if len(sels) != 1 {
 			r.Violation(key, c.Pos(tick.Pos()), "%d select statements in the ticking closure, expected one", len(sels))
 			return
 		}
-		sel := sels[0]
+		selEv := sels[0]
+		sel := selEv.Instr.(*ssa.Select)
 		if !sel.Blocking {
 			r.Violation(key, an.Pos(c, sel), "the tick select has a default arm: the loop spins instead of waiting for the next tick")
 			return
 		}
 		done, tk := 0, 0
 		arms := an.SelectArms(sel)
+		inWorkers := func(f *ssa.Function) bool { return core.RelPkg(f) == "internal/workers" }
 		for idx, st := range sel.States {
 			if call, ok := an.Strip(st.Chan).(*ssa.Call); ok && call.Common().IsInvoke() && call.Common().Method.Name() == "Done" {
 				done++
-				ctxD := an.D().Of(call.Common().Value)
-				r.Check(strings.Contains(ctxD, ".Start("), key+"-done-ctx", c.Pos(st.Pos), "Done of the worker context returned by the pool", "the Done arm watches "+ctxD+", not the worker context the pool returned")
+				cv := an.EventFV(selEv, call.Common().Value).Resolve(inWorkers).V
+				sc, isCall := cv.(*ssa.Call)
+				okCtx := isCall && isMethod(an.Callee(sc), workersPkg, "TriggerPool", "Start")
+				r.Check(okCtx, key+"-done-ctx", c.Pos(st.Pos), "Done of the worker context returned by the pool", "the Done arm watches "+an.D().Of(cv)+", not the worker context the pool returned")
 				if arm := arms[idx]; arm != nil {
-					r.Check(!an.ReachableFrom(arm.Instrs[0], sel), key+"-done-returns", c.Pos(st.Pos), "Done arm returns", "Done arm loops back: evaluations continue after the context ended")
+					returns := !an.ReachableFrom(arm.Instrs[0], sel)
+					for fr := selEv.Frame; fr.Parent != nil; fr = fr.Parent {
+						if an.InLoop(fr.Site) {
+							returns = false
+						}
+					}
+					r.Check(returns, key+"-done-returns", c.Pos(st.Pos), "Done arm returns", "Done arm loops back: evaluations continue after the context ended")
 					for _, e := range evals {
-						if e.Block() == arm || arm.Dominates(e.Block()) {
-							r.Violation(key+"-done-eval", an.Pos(c, e), "the rate is evaluated on the Done arm")
+						if e.Instr.Parent() == sel.Parent() && (e.Instr.Block() == arm || arm.Dominates(e.Instr.Block())) {
+							r.Violation(key+"-done-eval", an.Pos(c, e.Instr), "the rate is evaluated on the Done arm")
 						}
 					}
 				}
 				continue
 			}
-			if fld, owner := an.TerminalField(st.Chan); fld != nil && fld.Name() == "C" && an.IsNamed(owner, "time", "Ticker") {
-				tk++
-				continue
+			chv := an.EventFV(selEv, st.Chan).Resolve(nil)
+			if fa, ok := chv.V.(*ssa.FieldAddr); ok {
+				if fld := an.FieldOfAddr(fa); fld != nil && fld.Name() == "C" && an.IsNamed(fa.X.Type(), "time", "Ticker") {
+					tk++
+					continue
+				}
 			}
 			r.Violation(key+"-extra-arm", c.Pos(st.Pos), "unexpected select arm on %s in the tick loop", an.D().Of(st.Chan))
 		}
